@@ -259,6 +259,16 @@ pub fn all_lenses() -> Vec<Lens> {
             n_thorough: 7,
         },
         Lens {
+            // version shapes that a per-ecosystem normaliser would touch (v-prefix, build metadata,
+            // pre-release, epoch), under every known type: the typed PURL must leave them alone
+            name: "A13-typed-versions",
+            prefixes: vec!["pkg:nuget/n@", "pkg:pypi/n@", "pkg:npm/n@", "pkg:golang/g/n@", "pkg:maven/g/n@", "pkg:cargo/n@", "pkg:gem/n@", "pkg:t/n@"],
+            alphabet: vec!["1", "0", ".", "+", "-", "v", "V", "a", "A", "!", "~", "%2B"],
+            suffixes: vec![""],
+            n_quick: 4,
+            n_thorough: 6,
+        },
+        Lens {
             name: "A7-typed-names",
             prefixes: vec!["pkg:cargo/", "pkg:gem/", "pkg:golang/", "pkg:maven/", "pkg:npm/", "pkg:nuget/", "pkg:PyPI/", "pkg:pypi/", "pkg:generic/"],
             alphabet: vec!["a", "A", "-", "_", ".", "/", "@", "1", "é", "É", "ǅ", ":"],
